@@ -114,3 +114,26 @@ Theorem C02_convert_roundtrip : forall (l : list labi_validator) e,
   (forall a g w b, In (a, g, w, b) l -> w = 0 -> b = e) ->
   labi_of (bft_validators_of l) (generators_of l) e = l.
 Proof. exact convert_roundtrip. Qed.
+
+(* ------------------------------------------------------------------ declarative (sum) form of the vote weights *)
+From LE Require Import BFT.VotesGhost BFT.VotesGhostDyn.
+
+(* For every valid chain K (blocks may carry parameter changes; [viewD] = the view after K, see C01_valid_chain_spec /
+   validD_spec for its spelled-out form) and every windowed entry e: the prevote weight of e is the sum — with the weights
+   in force at e's height — over a duplicate-free list of generators, each of which has a block X on K with
+   maxHeightGenerated X < height e <= height X; the precommit weight likewise over generators with a precommitting block P
+   (height e <= maxHeightPrevoted P, e had a prevote quorum in P's parent view, P's own previous blocks linked through
+   maxHeightGenerated down to below e). No weight is ever counted twice or without a justifying header of the chain. *)
+Theorem C02_prevote_weight_is_sum : forall batch, (0 < batch)%nat -> forall gh c s0, init_store batch gh c = Ok s0 ->
+  forall K s, viewD batch gh s0 K = Some s ->
+  forall e p, In e (window s) -> get_params (s_params s) (i_height e) = Ok p ->
+  exists L : list chain, i_pv e = wsum (p_vals p) (map genC L) /\ NoDup (map genC L) /\
+    forall X, In X L -> prefix X K /\ X <> [] /\ mhgC X < i_height e <= tipof gh X.
+Proof. intros batch Hb gh c s0 Hi K s Hv. exact (di_pv batch gh s0 K s (dinv_view batch Hb gh c s0 Hi K s Hv)). Qed.
+
+Theorem C02_precommit_weight_is_sum : forall batch, (0 < batch)%nat -> forall gh c s0, init_store batch gh c = Ok s0 ->
+  forall K s, viewD batch gh s0 K = Some s ->
+  forall e p, In e (window s) -> get_params (s_params s) (i_height e) = Ok p ->
+  exists L : list chain, i_pc e = wsum (p_vals p) (map genC L) /\ NoDup (map genC L) /\
+    forall P, In P L -> prefix P K /\ pc_evD batch gh s0 (i_height e) P /\ noprec (v_act (s_votes s)) (genC P) (i_height e).
+Proof. intros batch Hb gh c s0 Hi K s Hv. exact (di_pc batch gh s0 K s (dinv_view batch Hb gh c s0 Hi K s Hv)). Qed.
